@@ -1,3 +1,409 @@
 package props
 
-func micetypestate(e *Env, why string) {}
+import (
+	"go/token"
+	"strings"
+
+	"golang.org/x/tools/go/ssa"
+
+	"wpverif/internal/gate"
+	"wpverif/internal/load"
+	"wpverif/internal/prov"
+)
+
+const (
+	tBuf      = "param:d.recordBuf"
+	tReadN    = "call:io.ReadFull(param:d.r,param:d.recordBuf)#0"
+	tShortRec = "slice(param:d.recordBuf,," + tReadN + ")"
+)
+
+func storeTo(field string, valPat string) func(ssa.Instruction) bool {
+	return func(in ssa.Instruction) bool {
+		st, ok := in.(*ssa.Store)
+		if !ok || prov.Of(st.Addr) != "param:d."+field {
+			return false
+		}
+		return valPat == "" || prov.Match(valPat, prov.Of(st.Val))
+	}
+}
+
+// micetypestate: E9 — the validated-buffer typestate of the MI decoder.
+func micetypestate(e *Env, why string) {
+	rn := e.fn("signedexchange/mice.(*decoder).readNextRecord")
+	rd := e.fn("signedexchange/mice.(*decoder).Read")
+	nd := e.fn("signedexchange/mice.(Encoding).NewDecoder")
+	vr := e.fn("signedexchange/mice.validateRecord")
+	if rn == nil || rd == nil || nd == nil || vr == nil {
+		return
+	}
+	lastOK := gate.CallBool("V.last", "mice.validateRecord", true, tShortRec, "param:d.nextProof", "const:true")
+	fullOK := gate.CallBool("V.full", "mice.validateRecord", true, tBuf, "param:d.nextProof", "const:false")
+	emptyOK := gate.CallBool("V.empty", "mice.validateRecord", true, "const:nil", "param:d.nextProof", "const:true")
+
+	// 1. who-writes
+	whoWritesDecoder(e)
+
+	// 2. stores to out
+	allowedOut := 0
+	for _, fn := range []*ssa.Function{rn, rd, nd} {
+		for _, b := range fn.Blocks {
+			for _, in := range b.Instrs {
+				st, ok := in.(*ssa.Store)
+				if !ok || !strings.HasSuffix(prov.Of(st.Addr), ".out") || !strings.Contains(prov.Of(st.Addr), "d") {
+					continue
+				}
+				if fa, ok := st.Addr.(*ssa.FieldAddr); !ok || !strings.HasSuffix(fieldOf(fa), "decoder.out") {
+					continue
+				}
+				allowedOut++
+				v := prov.Of(st.Val)
+				key := load.FuncName(fn) + ":out<-" + short(v)
+				switch {
+				case v == "const:nil":
+					e.R.OK("TYPESTATE", key, e.P.InstrPos(in), "out is emptied")
+				case v == tShortRec:
+					// handled by gatesBefore below
+				case v == "slice(param:d.recordBuf,,param:d.recordSize)":
+				case strings.HasPrefix(v, "slice(param:d.out,"):
+					e.R.OK("TYPESTATE", key, e.P.InstrPos(in), "out is advanced within itself (already validated bytes)")
+				default:
+					e.R.Fail("TYPESTATE", key, e.P.InstrPos(in), "out is set to a value that is not a validated sub-slice of the record buffer: "+v)
+				}
+			}
+		}
+	}
+	e.gatesBefore("TYPESTATE", rn, noCfg, "out=buf[:n]", storeTo("out", tShortRec), lastOK)
+	e.gatesBefore("TYPESTATE", rn, noCfg, "out=buf[:recordSize]", storeTo("out", "slice(param:d.recordBuf,,param:d.recordSize)"), fullOK)
+	// 3. nextProof
+	e.gatesBefore("TYPESTATE", rn, noCfg, "nextProof=nil", storeTo("nextProof", "const:nil"), either("V.last-or-empty", "validateRecord(..., last=true) true", lastOK, emptyOK))
+	nCopy := e.gatesBefore("TYPESTATE", rn, noCfg, "copy(nextProof,buf[recordSize:])", func(in ssa.Instruction) bool {
+		c, ok := in.(*ssa.Call)
+		return ok && prov.CalleeName(&c.Call) == "builtin:copy" && prov.Of(c.Call.Args[0]) == "param:d.nextProof"
+	}, fullOK)
+	if nCopy != 1 {
+		e.R.Fail("TYPESTATE", "readNextRecord:next-proof-chained", e.P.Pos(rn.Pos()), "the proof of the next record is not taken from the validated record exactly once")
+	} else {
+		for _, b := range rn.Blocks {
+			for _, in := range b.Instrs {
+				if c, ok := in.(*ssa.Call); ok && prov.CalleeName(&c.Call) == "builtin:copy" && prov.Of(c.Call.Args[0]) == "param:d.nextProof" {
+					if prov.Of(c.Call.Args[1]) == "slice(param:d.recordBuf,param:d.recordSize,)" {
+						e.R.OK("TYPESTATE", "readNextRecord:next-proof-chained", e.P.InstrPos(in), "the next proof is the tail of the record just validated (authenticated with it)")
+					} else {
+						e.R.Fail("TYPESTATE", "readNextRecord:next-proof-chained", e.P.InstrPos(in), "the next proof is copied from "+prov.Of(c.Call.Args[1])+", not from the tail of the validated record")
+					}
+				}
+			}
+		}
+	}
+	// every store of nextProof in the three functions is one of the accepted forms
+	for _, fn := range []*ssa.Function{rn, rd} {
+		for _, b := range fn.Blocks {
+			for _, in := range b.Instrs {
+				if st, ok := in.(*ssa.Store); ok && prov.Of(st.Addr) == "param:d.nextProof" && prov.Of(st.Val) != "const:nil" {
+					e.R.Fail("TYPESTATE", load.FuncName(fn)+":nextProof<-"+short(prov.Of(st.Val)), e.P.InstrPos(in), "nextProof is replaced by an unauthenticated value")
+				}
+			}
+		}
+	}
+	// 4. flags: short read => last, full read => not last; hashing 0 / 1 as the encoder
+	e.gatesBefore("TYPESTATE", rn, noCfg, "validate(last)", func(in ssa.Instruction) bool {
+		c, ok := in.(*ssa.Call)
+		return ok && prov.CalleeName(&c.Call) == "mice.validateRecord" && prov.Of(c.Call.Args[0]) == tShortRec
+	}, gate.Cmp("R.short", "call:io.ReadFull(param:d.r,param:d.recordBuf)#1", token.EQL, "global:io.ErrUnexpectedEOF"),
+		gate.Cmp("R.not-in-hash", "conv("+tReadN+")", token.LEQ, "param:d.recordSize"))
+	e.gatesBefore("TYPESTATE", rn, noCfg, "validate(full)", func(in ssa.Instruction) bool {
+		c, ok := in.(*ssa.Call)
+		return ok && prov.CalleeName(&c.Call) == "mice.validateRecord" && prov.Of(c.Call.Args[0]) == tBuf
+	}, gate.CallOK("R.full", "io.ReadFull", "param:d.r", "param:d.recordBuf"))
+	e.gatesBefore("TYPESTATE", rn, noCfg, "validate(empty)", func(in ssa.Instruction) bool {
+		c, ok := in.(*ssa.Call)
+		return ok && prov.CalleeName(&c.Call) == "mice.validateRecord" && prov.Of(c.Call.Args[0]) == "const:nil"
+	}, gate.Cmp("R.eof", "call:io.ReadFull(param:d.r,param:d.recordBuf)#1", token.EQL, "global:io.EOF"),
+		gate.Cmp("R.draft02", "param:d.encoding", token.EQL, `const:"mi-sha256-draft2"`))
+	// every validateRecord call in readNextRecord is one of the three forms, flag constant as required
+	for _, b := range rn.Blocks {
+		for _, in := range b.Instrs {
+			if c, ok := in.(*ssa.Call); ok && prov.CalleeName(&c.Call) == "mice.validateRecord" {
+				a0, a1, a2 := prov.Of(c.Call.Args[0]), prov.Of(c.Call.Args[1]), prov.Of(c.Call.Args[2])
+				key := "readNextRecord:validate(" + short(a0) + ")"
+				okForm := a1 == "param:d.nextProof" && ((a0 == tShortRec && a2 == "const:true") || (a0 == tBuf && a2 == "const:false") || (a0 == "const:nil" && a2 == "const:true"))
+				if okForm {
+					e.R.OK("TYPESTATE", key, e.P.InstrPos(in), "record, chained proof and last-record flag agree (flag "+a2+")")
+				} else {
+					e.R.Fail("TYPESTATE", key, e.P.InstrPos(in), "validateRecord is called with record/proof/flag ("+short(a0)+", "+a1+", "+a2+") that do not agree with the read outcome")
+				}
+			}
+		}
+	}
+	flagBytes(e, vr)
+	// success exits of readNextRecord: nil only after a validation; io.EOF only after the empty last record
+	e.requireGates("TYPESTATE", rn, gate.Outcome{Kind: gate.ErrNil, Idx: 0}, noCfg,
+		either("V.any", "a validateRecord pass-edge", lastOK, fullOK))
+	// 5. Read
+	e.requireResult("TYPESTATE", rd, gate.Outcome{Kind: gate.ErrNil, Idx: 1}, 0, "copy(param:dst,param:d.out)", "the number of bytes copied from out")
+	e.gatesBefore("TYPESTATE", rd, noCfg, "return EOF", func(in ssa.Instruction) bool {
+		r, ok := in.(*ssa.Return)
+		return ok && len(r.Results) == 2 && prov.Of(r.Results[1]) == "global:io.EOF"
+	}, gate.Cmp("E.out-empty", "len(param:d.out)", token.EQL, "const:0"), gate.Cmp("E.no-next", "param:d.nextProof", token.EQL, "const:nil"))
+	// 8. refill only when out is empty
+	e.gatesBefore("TYPESTATE", rd, noCfg, "refill", func(in ssa.Instruction) bool {
+		c, ok := in.(*ssa.Call)
+		return ok && prov.CalleeName(&c.Call) == "(*mice.decoder).readNextRecord"
+	}, gate.Cmp("F.out-empty", "len(param:d.out)", token.EQL, "const:0"))
+	// the copy to the caller comes from out only
+	for _, b := range rd.Blocks {
+		for _, in := range b.Instrs {
+			if c, ok := in.(*ssa.Call); ok && prov.CalleeName(&c.Call) == "builtin:copy" {
+				if prov.Of(c.Call.Args[0]) == "param:dst" && prov.Of(c.Call.Args[1]) == "param:d.out" {
+					e.R.OK("TYPESTATE", "Read:copy-from-out", e.P.InstrPos(in), "bytes handed to the caller come from out")
+				} else {
+					e.R.Fail("TYPESTATE", "Read:copy-from-out", e.P.InstrPos(in), "Read copies "+prov.Of(c.Call.Args[1])+" to the caller, not the validated out buffer")
+				}
+			}
+		}
+	}
+	// 6. NewDecoder
+	ndo := gate.Outcome{Kind: gate.ErrNil, Idx: 1}
+	tProof := "call:(mice.Encoding).parseDigestHeader(param:enc,param:digestHeaderValue)#0"
+	e.requireGates("TYPESTATE", nd, ndo, noCfg,
+		gate.CallOK("N.digest", "(mice.Encoding).parseDigestHeader", "param:enc", "param:digestHeaderValue"))
+	e.gatesBefore("TYPESTATE", nd, noCfg, "alloc-record-buffer", func(in ssa.Instruction) bool {
+		_, ok := in.(*ssa.MakeSlice)
+		return ok
+	}, gate.Cmp("N.nonzero", "local:recordSize", token.NEQ, "const:0"), gate.Cmp("N.max", "local:recordSize", token.LEQ, "param:maxRecordSize"),
+		gate.CallOK("N.read-size", "binary.Read", "param:r", "global:binary.BigEndian", "local:recordSize"))
+	// the empty-stream shortcut: a decoder without reader/proof is returned only for non-draft02 after validateRecord(nil, proof, true)
+	for _, b := range nd.Blocks {
+		r, ok := b.Instrs[len(b.Instrs)-1].(*ssa.Return)
+		if !ok || len(r.Results) != 2 || prov.Of(r.Results[1]) != "const:nil" {
+			continue
+		}
+		al, ok := r.Results[0].(*ssa.MakeInterface)
+		if !ok {
+			continue
+		}
+		hasProof := false
+		if a, ok := al.X.(*ssa.Alloc); ok {
+			for _, ref := range *a.Referrers() {
+				if fa, ok := ref.(*ssa.FieldAddr); ok && strings.HasSuffix(fieldOf(fa), "decoder.nextProof") {
+					hasProof = true
+				}
+			}
+		}
+		if hasProof {
+			// the regular decoder: its nextProof is the parsed top-level proof
+			e.requireStore("TYPESTATE", nd, "alloc:mice.decoder.nextProof", tProof, "the top-level proof parsed from the digest header")
+			e.requireStore("TYPESTATE", nd, "alloc:mice.decoder.r", "param:r", "the caller's reader")
+			continue
+		}
+		ctx := gate.New(e.P, e.P.VTA())
+		ctx.OnlyReturn = r
+		for _, g := range []gate.Gate{
+			gate.CallBool("N.empty-valid", "mice.validateRecord", true, "const:nil", tProof, "const:true"),
+			gate.Cmp("N.empty-eof", "call:binary.Read(param:r,global:binary.BigEndian,local:recordSize)", token.EQL, "global:io.EOF"),
+			gate.Cmp("N.empty-not-draft02", "param:enc", token.NEQ, `const:"mi-sha256-draft2"`),
+		} {
+			ok2, w := ctx.Established(nd, gate.Outcome{Kind: gate.AnyReturn}, g)
+			key := "signedexchange/mice.(Encoding).NewDecoder:empty-stream:" + g.Key
+			if ok2 {
+				e.R.OK("TYPESTATE", key, e.P.InstrPos(r), "the empty decoder is returned only after "+g.Desc)
+			} else {
+				e.R.Fail("TYPESTATE", key, e.P.InstrPos(r), "the empty-stream shortcut can be taken without "+g.Desc, w...)
+			}
+		}
+	}
+	// 7. validateRecord and the digest length
+	e.requireResult("TYPESTATE", vr, gate.Outcome{Kind: gate.AnyReturn}, 0, "call:bytes.Equal(invoke:hash.Hash.Sum(call:sha256.New(),const:nil),param:proof)", "bytes.Equal(SHA-256(record || flag), proof)")
+	e.requireGates("TYPESTATE", vr, gate.Outcome{Kind: gate.AnyReturn}, noCfg,
+		gate.CallInstr("H.record", "invoke:hash.Hash.Write", "call:sha256.New()", "param:record"))
+	pd := e.fn("signedexchange/mice.(Encoding).parseDigestHeader")
+	e.requireGates("TYPESTATE", pd, gate.Outcome{Kind: gate.ErrNil, Idx: 1}, noCfg,
+		gate.Cmp("P.len32", "len(invoke:*DecodeString(*)#0)", token.EQL, "const:32").WithEdge(func(f gate.Fact) bool {
+			return f.Kind == gate.FCmp && f.Op == token.EQL && strings.HasPrefix(prov.Of(f.X), "len(call:(*base64.Encoding).DecodeString(") && prov.Of(f.Y) == "const:32"
+		}),
+		gate.Cmp("P.algorithm", "*", token.EQL, "call:(mice.Encoding).ContentEncoding(param:enc)"))
+	e.R.Floor("TYPESTATE", 30)
+	e.R.Extra["typestate_note"] = why
+}
+
+func fieldOf(fa *ssa.FieldAddr) string {
+	t := fa.X.Type()
+	s := t.String()
+	i := strings.LastIndex(s, "/")
+	if i >= 0 {
+		s = s[i+1:]
+	}
+	s = strings.TrimPrefix(s, "*")
+	names := structFieldNames(fa)
+	if fa.Field < len(names) {
+		return s + "." + names[fa.Field]
+	}
+	return s
+}
+
+func structFieldNames(fa *ssa.FieldAddr) []string {
+	var out []string
+	t := fa.X.Type().Underlying()
+	if p, ok := t.(interface{ Elem() interface{ Underlying() interface{} } }); ok {
+		_ = p
+	}
+	// use prov: the rendered address ends with ".<field>"
+	addr := prov.Of(fa)
+	if i := strings.LastIndex(addr, "."); i >= 0 {
+		for k := 0; k <= fa.Field; k++ {
+			out = append(out, addr[i+1:])
+		}
+	}
+	return out
+}
+
+// whoWritesDecoder: only NewDecoder, Read and readNextRecord store to the
+// decoder's fields; the record buffer is written only by io.ReadFull in
+// readNextRecord and the proof bytes only by the copy there.
+func whoWritesDecoder(e *Env) {
+	allowed := map[string]bool{
+		"signedexchange/mice.(Encoding).NewDecoder":       true,
+		"signedexchange/mice.(*decoder).Read":             true,
+		"signedexchange/mice.(*decoder).readNextRecord":   true,
+	}
+	bad := []string{}
+	n := 0
+	for _, fn := range e.P.Funcs {
+		for _, b := range fn.Blocks {
+			for _, in := range b.Instrs {
+				switch x := in.(type) {
+				case *ssa.Store:
+					if fa, ok := x.Addr.(*ssa.FieldAddr); ok && strings.Contains(fa.X.Type().String(), "mice.decoder") {
+						n++
+						if !allowed[load.FuncName(fn)] {
+							bad = append(bad, load.FuncName(fn)+" stores to "+prov.Of(x.Addr))
+						}
+					}
+				case *ssa.Call:
+					// writers into the buffers: any call receiving d.recordBuf / d.nextProof / d.out (or a slice of them) as destination
+					name := prov.CalleeName(&x.Call)
+					for i, a := range x.Call.Args {
+						t := prov.Of(a)
+						if !strings.Contains(t, "d.recordBuf") && !strings.Contains(t, "d.nextProof") {
+							continue
+						}
+						if !strings.HasPrefix(load.FuncName(fn), "signedexchange/mice.") {
+							continue
+						}
+						n++
+						switch {
+						case name == "io.ReadFull" && i == 1 && t == "param:d.recordBuf" && load.FuncName(fn) == "signedexchange/mice.(*decoder).readNextRecord":
+						case name == "builtin:copy" && i == 0 && t == "param:d.nextProof" && load.FuncName(fn) == "signedexchange/mice.(*decoder).readNextRecord":
+						case name == "builtin:copy" && i == 1: // source operand
+						case name == "mice.validateRecord": // read-only: hashes record and compares proof
+						case name == "builtin:len":
+						default:
+							bad = append(bad, load.FuncName(fn)+" passes "+t+" to "+name)
+						}
+					}
+				}
+			}
+		}
+	}
+	if len(bad) == 0 && n >= 8 {
+		e.R.OK("TYPESTATE", "mice.decoder:who-writes", "-", "the decoder's fields are stored only by NewDecoder/Read/readNextRecord; the record buffer is filled only by io.ReadFull and the chained proof only by the copy in readNextRecord")
+	} else {
+		e.R.Fail("TYPESTATE", "mice.decoder:who-writes", "-", "the validated-buffer state of the MI decoder is written outside the three state-machine functions", bad...)
+	}
+	// validateRecord must not write through its slices
+	if vr, ok := e.P.FuncOK("signedexchange/mice.validateRecord"); ok {
+		for _, b := range vr.Blocks {
+			for _, in := range b.Instrs {
+				if st, ok := in.(*ssa.Store); ok {
+					if t := prov.Of(st.Addr); strings.HasPrefix(t, "param:record") || strings.HasPrefix(t, "param:proof") {
+						e.R.Fail("TYPESTATE", "mice.validateRecord:read-only", e.P.InstrPos(in), "validateRecord writes into its input")
+					}
+				}
+			}
+		}
+	}
+}
+
+// flagBytes: validateRecord hashes 0x00 after a last record and 0x01 otherwise;
+// the encoder does the same (last record 0, others 1).
+func flagBytes(e *Env, vr *ssa.Function) {
+	for _, v := range []struct{ val, want string }{{"true", "0"}, {"false", "1"}} {
+		ctx := gate.New(e.P, e.P.VTA(), gate.Assumption{ProvPat: "param:isLastRecord", Value: v.val})
+		got := flagStores(ctx, vr)
+		key := "mice.validateRecord:flag(last=" + v.val + ")"
+		if len(got) == 1 && got[0] == v.want {
+			e.R.OK("TABLE", key, e.P.Pos(vr.Pos()), "domain-separation byte "+v.want)
+		} else {
+			e.R.Fail("TABLE", key, e.P.Pos(vr.Pos()), "wrong domain-separation byte for last="+v.val+": "+strings.Join(got, ","))
+		}
+	}
+	enc := e.fn("signedexchange/mice.(Encoding).Encode")
+	if enc == nil {
+		return
+	}
+	// in the proof loop: i == 0 (last record) hashes {0}, otherwise proofs[rec+1] then {1}
+	for _, v := range []struct {
+		cfg  gate.Assumption
+		want string
+		name string
+	}{
+		{gate.Assumption{ProvPat: "phi((↺ + const:1)|const:0)", Value: "0"}, "0", "last"},
+		{gate.Assumption{ProvPat: "phi((↺ + const:1)|const:0)", Value: "0", NotEqual: true}, "1", "not-last"},
+	} {
+		ctx := gate.New(e.P, e.P.VTA(), v.cfg)
+		got := flagStoresLoop(ctx, enc)
+		key := "mice.Encode:flag(" + v.name + ")"
+		if len(got) == 1 && got[0] == v.want {
+			e.R.OK("TABLE", key, e.P.Pos(enc.Pos()), "the encoder hashes "+v.want+" for this record class, as validateRecord does")
+		} else {
+			e.R.Fail("TABLE", key, e.P.Pos(enc.Pos()), "encoder and decoder disagree on the domain-separation byte: encoder hashes "+strings.Join(got, ",")+" for "+v.name+" records")
+		}
+	}
+}
+
+// flagStores: constants stored into one-byte arrays on blocks reachable under
+// the assumptions of ctx.
+func flagStores(ctx *gate.Ctx, fn *ssa.Function) []string {
+	return flagStoresFrom(ctx, fn, nil)
+}
+
+// flagStoresLoop restricts flagStores to the hashing loop of Encode: blocks
+// that contain a call to hash.Hash.Write.
+func flagStoresLoop(ctx *gate.Ctx, fn *ssa.Function) []string {
+	return flagStoresFrom(ctx, fn, func(b *ssa.BasicBlock) bool {
+		hashes, special := false, false
+		for _, in := range b.Instrs {
+			if c, ok := in.(*ssa.Call); ok {
+				switch prov.CalleeName(&c.Call) {
+				case "invoke:hash.Hash.Write":
+					hashes = true
+				case "(mice.Encoding).FormatDigestHeader":
+					special = true // the draft-03 empty-payload case: SHA-256("\0"), an (empty) last record
+				}
+			}
+		}
+		return hashes && !special
+	})
+}
+
+func flagStoresFrom(ctx *gate.Ctx, fn *ssa.Function, keep func(*ssa.BasicBlock) bool) []string {
+	set := map[string]bool{}
+	for _, b := range ctx.ReachableBlocks(fn) {
+		if keep != nil && !keep(b) {
+			continue
+		}
+		for _, in := range b.Instrs {
+			st, ok := in.(*ssa.Store)
+			if !ok {
+				continue
+			}
+			if prov.Of(st.Addr) != "alloc:[1]byte[const:0]" {
+				continue
+			}
+			if k, ok := st.Val.(*ssa.Const); ok {
+				set[strings.TrimPrefix(prov.Of(k), "const:")] = true
+			}
+		}
+	}
+	return sortedKeys(set)
+}
